@@ -29,8 +29,11 @@ def c13(ctx):
         s = ctx.session(fl)
         r = s.run_seq('c13_wrap_seq', covers=[1])
         ctx.add(tag(r, mode='M1', flavor=fl, sample={'scenario': 'c13_wrap_seq', 'generation': 'symbolic', 'paths': r['paths']}))
+        # the wrap moves the thread to another (spare) node while 8 guards live on in the retired one
+        seq_run(ctx, 'c13_wrap_moved', flavor=fl)
     # the wrap while a writer is inside the retired node (helping), context-bounded
-    cb_run(ctx, SPECS['nf_wrap'], 3, features=('test-strategies',))
+    cb_run(ctx, dict(SPECS['nf_wrap'], hang_is_violation=True), 3, features=('test-strategies',))
+    cb_run(ctx, dict(SPECS['nf_iso_wrap'], hang_is_violation=True), 2, features=('test-strategies',))
 
 
 def conc_run(ctx, spec, flavor='rel', features=(), **kw):
@@ -143,6 +146,30 @@ SPECS = {
                   'final': 'cs_final_opt_clear', 'covers': [13]},
     'opt_store': {'name': 'opt_store', 'setup': 'cs_setup_opt', 'threads': [(W0, 'cs_w_optstore_none'), (W0, 'cs_w_optswap1_r1')],
                   'final': 'cs_final_opt_store', 'covers': [13]},
+    # --- memory re-use (a freed value's address handed out again) against compare_and_swap and the Cache
+    'cas_reuse': {'name': 'cas_reuse', 'setup': 'r3_setup_cas', 'threads': [(W, 'r3_cas_guard_forms'), (W, 'r3_store_reuse')],
+                  'final': 'r3_final_cas', 'covers': [13]},
+    'cache_reuse': {'name': 'cache_reuse', 'setup': 'r3_setup_cas', 'threads': [('r3_cache_init', 'r3_cache_load2'), (W, 'r3_cache_writer')],
+                    'final': 'r3_final_cache', 'covers': [13]},
+    'cache_reuse1': {'name': 'cache_reuse1', 'setup': 'r3_setup_cas', 'threads': [('r3_cache_init', 'r3_cache_load1'), (W, 'r3_cache_writer')],
+                     'final': 'r3_final_cache', 'covers': [13]},
+    'rcu_aba': {'name': 'rcu_aba', 'setup': 'cs_setup_pool', 'threads': [(W, 'r3_rcu_next'), (W, 'cs_w_swap2_store0')],
+                'final': 'r3_final_rcu_aba', 'covers': [13]},
+    'rcu_aba3': {'name': 'rcu_aba3', 'setup': 'cs_setup_pool', 'threads': [(W, 'r3_rcu_next'), (W, 'r3_swap2_rec'), (W, 'r3_store0')],
+                 'after': {3: 2}, 'final': 'r3_final_rcu_aba', 'covers': [13]},
+    # --- fallback-only strategy: the wrap moves the reader of A onto the node of an exited thread that last read B
+    'nf_iso_wrap': {'name': 'nf_iso_wrap', 'setup': 'nf_setup',
+                    'threads': [('nf_warm', 'nf_r_wrap_a'), ('nf_pre_load_b', 'nf_exit_t2'), ('nf_warm', 'nf_w_store_b3')],
+                    'final': 'nf_final', 'covers': [13]},
+    # --- two new threads race for the node an exited thread left behind
+    'nf_claim2': {'name': 'nf_claim2', 'setup': 'nf_setup',
+                  'threads': [('nf_warm', 'nf_exit_t1'), (None, 'nf_r_new_load2'), (None, 'nf_r_new_load2')],
+                  'final': 'nf_final', 'covers': [13]},
+    # --- projections loaded on the fast / fallback path while a writer replaces the value
+    'map_fast': {'name': 'map_fast', 'setup': 'cs_setup2', 'threads': [(W, 'r3_map_loads'), (W, 'cs_w_store1')],
+                 'final': 'r3_final_map', 'covers': [13]},
+    'map_fb': {'name': 'map_fb', 'setup': 'cs_setup2', 'threads': [('cs_fill8_t1', 'r3_map_loads'), (W, 'cs_w_store1')],
+               'final': 'r3_final_map', 'covers': [13]},
     # --- C09 freeze mode (cb.py subject=): the LAST thread is the subject; the others get frozen anywhere
     'frz_fast': {'name': 'frz_fast', 'setup': 'cs_setup_pool', 'threads': [(W, 'c9_r_load2'), (W, 'c9_s_writer_ops')], 'covers': [13]},
     'frz_fb': {'name': 'frz_fb', 'setup': 'cs_setup_pool2', 'threads': [('cs_fill8_t1', 'cs_r_load_only'), (W, 'c9_s_writer_ops')], 'covers': [13]},
@@ -202,6 +229,9 @@ def c03(ctx):
     conc_set(ctx, ['lin1'] if ctx.tier == 'quick' else ['lin1', 'lin1_fb'], timeout_s=1200)
     # reader on the helping path doing load; store; load against a helping writer (NoFastSlots), context-bounded
     cb_run(ctx, SPECS['nf_lin_rec'], 3, features=TS)
+    # the same oracle across thread churn: the reader exits, a new thread takes over its node while a helping writer
+    # may still be inside it (a load that started after a store returned must not come back with an older value)
+    cb_run(ctx, SPECS['nf_churn'], 3, features=TS)
     if ctx.tier != 'quick':
         cb_set(ctx, ['lin1', 'lin1_fb'], 3)
 
@@ -227,6 +257,9 @@ def c05(ctx):
     seq_run(ctx, 'c05_forms_option')
     # cas(obj0 -> obj1) racing swap(obj2); store(obj0): the A-B-A schedules need 3 preemptions
     cb_run(ctx, SPECS['cas_aba'], 3)
+    # `current` given as Guard / &Guard / &pointer while another thread frees the value and a new one re-uses its memory
+    ctx.bounds['address_reuse'] = 'scenario cas_reuse: a freed pool object is brought to life again as a NEW value at the same address'
+    cb_run(ctx, SPECS['cas_reuse'], 2 if ctx.tier == 'quick' else 3)
 
 
 @prop('C06')
@@ -238,6 +271,10 @@ def c06(ctx):
     # rcu racing store; store where the second store re-uses the memory of the value rcu started from
     cb_run(ctx, SPECS['rcu_reuse'], 2 if ctx.tier == 'quick' else 3)
     cb_run(ctx, SPECS['rcu2'], 1 if ctx.tier == 'quick' else 2)
+    # rcu against an A-B-A of the stored pointer (swap(B) and store(A) by other threads while rcu is between its load and its exchange)
+    cb_run(ctx, SPECS['rcu_aba3'], 2)
+    if ctx.tier != 'quick':
+        cb_run(ctx, SPECS['rcu_aba'], 3)
 
 
 @prop('C12')
@@ -249,6 +286,8 @@ def c12(ctx):
     conc_set(ctx, ['iso_b'])
     cb_run(ctx, SPECS['nf_iso'], 3, features=TS)
     cb_run(ctx, SPECS['iso_b'], 2 if ctx.tier == 'quick' else 3)
+    # the reader of A moves (generation wrap) onto the node of an exited thread that last read B, a writer of B walks by
+    cb_run(ctx, SPECS['nf_iso_wrap'], 2, features=TS)
     if ctx.tier != 'quick':
         ctx.bounds['helping_path'] = 'scenario nf_iso on HybridStrategy<NoFastSlots>: reader alternates helping loads of B and A while a writer of B helps it'
         conc_run(ctx, SPECS['nf_iso'], features=TS, loop_bound=3, timeout_s=1200)
@@ -274,6 +313,10 @@ def c14(ctx):
     n = '2' if ctx.tier == 'quick' else '3'
     seq_run(ctx, 'c14_default_' + n, covers=(1, 2), max_paths=400000)
     seq_run(ctx, 'c14_cursor')
+    # guards held across the wrap of the helping generation and across later writes (default strategy only: the
+    # other two have no generation): counts and identities as the plain-variable model says
+    seq_run(ctx, 'c13_wrap_seq')
+    seq_run(ctx, 'c13_wrap_moved')
     seq_run(ctx, 'c14_nofast_' + n, features=TS, covers=(1, 2), max_paths=400000)
     seq_run(ctx, 'c14_rwlock_' + n, features=TS, covers=(1, 2), max_paths=400000)
     if ctx.tier != 'quick':
@@ -286,6 +329,10 @@ def c16(ctx):
     seq_run(ctx, 'c16_seq_3' if ctx.tier == 'quick' else 'c16_seq_5', max_paths=400000)
     seq_run(ctx, 'c16_option')
     cb_run(ctx, SPECS['cache_rt'], 2 if ctx.tier == 'quick' else 3)
+    # a value the cache has seen is freed and its memory re-used by a later value
+    cb_run(ctx, SPECS['cache_reuse1'], 2)
+    if ctx.tier != 'quick':
+        cb_run(ctx, SPECS['cache_reuse'], 3)
     if ctx.tier != 'quick':
         ctx.bounds['concurrent'] = 'cache.load() on one thread against two stores with progress flags on another (all SC interleavings): freshness after a completed store'
         conc_run(ctx, SPECS['cache_rt'], loop_bound=3, timeout_s=900)
@@ -297,6 +344,9 @@ def c17(ctx):
                        'stores': 'one before and one during the guards (symbolic values)'})
     seq_run(ctx, 'c17_access')
     seq_run(ctx, 'c17_access_threads')
+    # Map / boxed DynAccess loads (fast path, and fallback path with 8 guards held) while another thread replaces the value
+    ctx.bounds['concurrent'] = 'Map and Box<dyn DynAccess> loads against one concurrent store, every schedule with at most 2 (thorough: 3) preemptions'
+    cb_set(ctx, ['map_fast', 'map_fb'], 2 if ctx.tier == 'quick' else 3)
     if ctx.tier != 'quick':
         seq_run(ctx, 'c17_access', flavor='dbg')
 
@@ -366,6 +416,15 @@ def c08(ctx):
         s = ctx.session('rel')
         r = conc.run_havoc(s, SPECS[name])
         ctx.add(tag(r, flavor='rel'))
+    # "the read never waits for any other thread to move", including at the generation wrap (where the load may take the
+    # lock-free Node::get path but still must not wait): context-bounded runs in which a load that goes round a loop on
+    # unchanging memory while the writer is suspended (anywhere, e.g. inside the reader's node) is the violation
+    ctx.bounds['waiting'] = 'reader loads (fast, fallback, helping path incl. the generation wrap) against a writer suspended at any gated step: a loop that iterates more than 200 times on unchanging memory is reported as waiting and confirmed natively by suspending the writer for ever'
+    cb_run(ctx, dict(SPECS['nf_wrap'], hang_is_violation=True), 3, features=TS)
+    cb_run(ctx, dict(SPECS['b_fallback'], hang_is_violation=True), 2 if ctx.tier == 'quick' else 3)
+    if ctx.tier != 'quick':
+        cb_run(ctx, dict(SPECS['nf_lin_rec'], hang_is_violation=True), 3, features=TS)
+        cb_run(ctx, dict(SPECS['a_fast'], hang_is_violation=True), 3)
 
 
 @prop('C10')
@@ -389,8 +448,11 @@ def c11(ctx):
     seq_run(ctx, 'c11_shutdown_ops')
     # a thread exits and a new one starts while a helping writer is still inside the first one's node
     cb_run(ctx, SPECS['nf_churn'], 3, features=TS)
+    # two new threads race for the node an exited thread left behind: it must end up with one of them only
+    cb_run(ctx, SPECS['nf_claim2'], 2 if ctx.tier == 'quick' else 3, features=TS)
     if ctx.tier != 'quick':
         seq_run(ctx, 'c11_shutdown_ops', flavor='dbg')
+        cb_run(ctx, SPECS['nf_claim2'], 2, flavor='dbg', features=TS)
 
 
 @prop('C07')
